@@ -55,7 +55,7 @@ def run(tier, replay):
             V.violation("AGGREGATE payload: " + b["problem"][:200], b)
         so = os.path.join(wd, "sout.json")
         rc, out = vlib.go_test(wd, "./internal/clients/handlers", OV, "TestC16Streams",
-                               env={"VERIF_OUT": so, "VERIF_N": 150 if tier == "quick" else 1500}, timeout=1800)
+                               env={"VERIF_OUT": so, "VERIF_N": 150 if tier == "quick" else 20000}, timeout=1800)
         if rc != 0 or not os.path.exists(so):
             raise vlib.Inconclusive("stream harness failed\n" + out[-2500:])
         sres = json.load(open(so))
